@@ -134,13 +134,22 @@ def run(ctx):
                                                                           not f.name.startswith("environment::LexicalScope::")):
                     ctx.report("C19-global-census", "scope-mutation/" + f.name, "%s mutates a syntax scope through its parents "
                                "(%s)" % (f.name, callee(t)), where_of(f, t))
+    # define writes only the frame it is called on (scope-chain table, scopes.py): with every subset of a 3-frame chain binding
+    # the name, exactly one insert, into frame 0
+    from . import scopes
     d = fb.find("environment::LexicalScope::define")
-    ins = [t for _, t in d.calls() if callee_matches(t, "HashMap::insert")]
-    rec = [t for _, t in d.calls() if callee_matches(t, "LexicalScope::define", "LexicalScope::set")]
-    pth = mir.trace_place(d, d.blocks[0]["stmts"][0]["rv"]["place"] and {"k": "copy", "place": d.blocks[0]["stmts"][0]["rv"]["place"]})[0] \
-        if d.blocks[0]["stmts"] and d.blocks[0]["stmts"][0]["k"] == "assign" and d.blocks[0]["stmts"][0]["rv"]["k"] == "ref" else ""
-    if len(ins) != 1 or rec:
-        ctx.report("C19-global-census", "define-own-frame", "LexicalScope::define does not write exactly the own frame", where_of(d))
+    bad_def = None
+    for found in scopes.subsets(3):
+        r = scopes.walk(fb, "define", found, 3)
+        if "stuck" in r:
+            ctx.undecided("C19-global-census", "define-own-frame", "cannot follow LexicalScope::define (%s)" % r["stuck"], where_of(d))
+            bad_def = None
+            break
+        ins = [x for x in r["inserts"] if x[0] in ("insert",)]
+        if [x[1] for x in ins] != [0] or r["stores"] and any(fr != 0 for fr, _ in r["stores"]):
+            bad_def = "with frames %s binding the name define writes %s / stores %s" % (sorted(found), r["inserts"], r["stores"])
+    if bad_def:
+        ctx.report("C19-global-census", "define-own-frame", "LexicalScope::define does not write exactly the own frame: " + bad_def, where_of(d))
     ctx.floor("C19-global-census", 3)
 
     # ------------------------------------------------------------------ C19-own-state
